@@ -23,6 +23,8 @@ EVALS = ('evalcluster', 'expandcluster_matrices', 'clusterevaluator')
 
 def run(model, rep, tier):
     rep.explanation = __doc__.strip()
+    from ._common import caches_for
+    caches_for(model, rep, 'C32')
     rep.not_decided = 'numerical equality of the four evaluators with a brute-force sum over clusters'
     rep.rule('sibling-vacancy-guard', 'the three evaluators share the vacancy-cluster guard and its preamble')
     rep.rule('sibling-site-lookup', 'sites are located by self.index(R + site.R, site.ci) and occupied means == 1')
